@@ -23,8 +23,12 @@ def main():
         if pid in na_reasons or not os.path.exists(modpath):
             na.append(dict(property_id=pid, reason=na_reasons.get(pid, PENDING)))
             continue
-        mod = importlib.import_module("props." + pid.lower())
-        m = getattr(mod, "MANIFEST", None)
+        try:
+            mod = importlib.import_module("props." + pid.lower())
+            m = getattr(mod, "MANIFEST", None)
+        except Exception as e:      # a module still being written
+            print("  %s: module does not import (%s) -> not claimed" % (pid, e))
+            m = None
         if m is None:
             na.append(dict(property_id=pid, reason=PENDING))
             continue
